@@ -1,0 +1,79 @@
+//go:build verif
+
+package feldman
+
+// Contracts for the deductive checker in /verif (comment-only; compiled only under the verif tag).
+//
+// Group elements E are bound to the abstract abelian group with scalar action ("group").
+// Functions marked purefn are deterministic functions of their arguments; their results can therefore be
+// named in the postconditions of their callers (Verify is specified as the conjunction of the four steps it
+// is built from, each of which carries its own contract).
+
+//@ func (*LiftedShare).Equal
+//@   property C05
+//@   bind E group
+//@   purefn
+//@   nopanic
+//@   ensures (s == nil || other == nil) ==> result == (s == other)
+//@   ensures s != nil && other != nil ==> result == (s.id == other.id && len(s.v) == len(other.v) && forall t int :: 0 <= t && t < len(s.v) ==> s.v[t] == other.v[t])
+//@   loop range(s.v)
+//@     invariant forall t int :: 0 <= t && t < i ==> s.v[t] == other.v[t]
+
+//@ func NewLiftedShare
+//@   property C05, C12
+//@   bind E group
+//@   purefn
+//@   nopanic
+//@   ensures (err == nil) == (len(v) != 0 && id != 0 && forall t int :: 0 <= t && t < len(v) ==> !utils.IsNil(v[t]))
+//@   ensures err == nil ==> result != nil && result.id == id && result.v == v
+//@   loop range(v)
+//@     invariant forall t int :: 0 <= t && t < i ==> !utils.IsNil(v[t])
+
+//@ func LiftShare
+//@   property C05
+//@   bind E group
+//@   purefn
+//@   nopanic
+//@   ensures s == nil ==> err != nil
+//@   ensures err == nil ==> result != nil && result.id == s.ID() && len(result.v) == len(s.Value())
+//@   ensures err == nil ==> forall t int :: 0 <= t && t < len(s.Value()) ==> result.v[t] == gsmul(s.Value()[t], basePoint)
+//@   loop range(s.Value())
+//@     invariant len(liftedValues) == len(s.Value())
+//@     invariant forall t int :: 0 <= t && t < i ==> liftedValues[t] == gsmul(s.Value()[t], basePoint)
+
+// Representation invariants of the inputs (established by NewVerificationVector / msp.NewMSP and by the decoders):
+//@ pure func wfVV(v *VerificationVector) bool = v.value != nil && wfMV(v.value) && v.value.Module().baseStructure != nil
+//@ func NewLiftedDealerFunc
+//@   property C05
+//@   bind E group
+//@   purefn
+//@   requires verificationVector != nil ==> wfVV(verificationVector)
+//@   requires mspMatrix != nil ==> wfM(mspMatrix.Matrix())
+//@   ensures (verificationVector == nil || mspMatrix == nil) ==> err != nil
+//@   ensures err == nil ==> verificationVector.value.n == 1
+//@   ensures err == nil ==> res(mat.LeftAction(mspMatrix.Matrix(), verificationVector.value), 1) == nil
+//@   ensures err == nil ==> result != nil && result.mspMatrix == mspMatrix && result.verificationVector == verificationVector && result.liftedLambda == res(mat.LeftAction(mspMatrix.Matrix(), verificationVector.value), 0)
+
+//@ func (*LiftedDealerFunc).ShareOf
+//@   property C05
+//@   bind E group
+//@   purefn
+//@   ensures err == nil ==> result != nil && result.id == id
+//@   ensures err == nil ==> res(d.mspMatrix.HoldersToRows().Get(id), 1)
+
+// Verification accepts only if every step of the verification equation M_i * V == [lambda_i]G succeeded:
+// the lifted dealer function could be built (LeftAction: dimension of V equals the MSP column count), the
+// claimed holder exists, the share could be lifted, and the two lifted shares are Equal (same id, same
+// length, every component equal).
+//@ func (*Scheme).Verify
+//@   property C05, C04
+//@   bind E group, PrimeGroup groupS
+//@   requires reference != nil ==> wfVV(reference)
+//@   requires s.lsss.MSP() != nil ==> wfM(s.lsss.MSP().Matrix())
+//@   let ldf = NewLiftedDealerFunc(reference, s.lsss.MSP())
+//@   let expected = res(ldf, 0).ShareOf(share.ID())
+//@   let lifted = LiftShare(share, ggen())
+//@   ensures err == nil ==> share != nil
+//@   ensures err == nil ==> res(ldf, 1) == nil && res(expected, 1) == nil && res(lifted, 1) == nil
+//@   ensures err == nil ==> res(expected, 0).Equal(res(lifted, 0))
+//@   ensures share != nil && res(ldf, 1) == nil && res(expected, 1) == nil && res(lifted, 1) == nil && res(expected, 0).Equal(res(lifted, 0)) ==> err == nil
